@@ -91,7 +91,7 @@ def table_instances(pool_name, rng, angles_per_class):
     return out
 
 
-def wrapper_instances(pool_name, rng):
+def wrapper_instances(pool_name, rng, stride=1):
     """Symbolic wrappers around table operators (kept inside the codec: adjoint / integer pow / ctrl)."""
     L = LABEL_POOLS[pool_name]
     out = []
@@ -103,7 +103,7 @@ def wrapper_instances(pool_name, rng):
                [{"t": "ctrl", "cv": [1]}, {"t": "ctrl", "cv": [0]}], [{"t": "adj"}, {"t": "adj"}]]
     for bi, (g, ar, npar) in enumerate(bases):
         for mi, mods in enumerate(modsets):
-            if (bi + mi) % 2 and pool_name != "int":
+            if (bi + mi) % stride:
                 continue
             nc = sum(len(m["cv"]) for m in mods if m["t"] == "ctrl")
             n = ar + nc
@@ -350,7 +350,9 @@ def build_space(tier, seed):
     per = 2 if tier == "quick" else 5
     for pool in ("int", "str", "mix"):
         insts += table_instances(pool, rng, per if pool == "int" else max(1, per // 2))
-        insts += wrapper_instances(pool, rng)
+        stride = {"int": 2, "str": 0, "mix": 3}[pool] if tier == "quick" else {"int": 1, "str": 2, "mix": 2}[pool]
+        if stride:
+            insts += wrapper_instances(pool, rng, stride)
     dropped = []
     for pool in ("int", "mix") if tier == "quick" else ("int", "str", "mix"):
         L = LABEL_POOLS[pool]
